@@ -82,6 +82,61 @@ def run_pair(ctx, stream, ops_path, tag, env=None):
     return True, impl, model, ("harness exec rc=%d: %s" % (rc, out[-2000:]) if rc != 0 else "")
 
 
+def branch_counters(ctx, stream, ops_path, trace_path):
+    """what the cases met (evidence counters): the shapes the generator chose and the rare branches of krt the
+    recorded streams show"""
+    ops = ctx.read_lines(ops_path)
+    held, seen_held = False, {}
+    for l in ops:
+        t = l.split()
+        if not t:
+            continue
+        if t[0] == "case":
+            held, seen_held = False, {}
+            tr = t[3] if len(t) > 3 else ""
+            if stream in ("krt", "krtf6", "exact"):
+                shape = {"0": "one_to_one_key_preserving", "1": "one_to_many", "2": "one_to_one_by_value"}.get(tr[:1], "?")
+                ctx.count("shape.%s.%s" % (stream, shape))
+                if "outIndex" in tr:
+                    ctx.count("shape.fetch_through_multi_key_index")
+                if "single1" in t[4:]:
+                    ctx.count("shape.%s" % ("NewManyFromNothing" if tr[:1] == "1" else "NewSingleton"))
+            for f, name in (("js", "join_over_static_singleton"), ("lr", "mem_store_written_before_run"),
+                            ("jd", "join_over_derived"), ("ju", "join_unchecked"), ("f6", "flagged_f6"), ("jr", "flagged_jr")):
+                if f in t[4:]:
+                    ctx.count("shape.%s" % name)
+        elif t[0] in ("p.reset", "s.reset"):
+            keys = [";".join(o.split(";")[:2]) for o in t[1:]]
+            if len(set(keys)) < len(keys):
+                ctx.count("branch.reset_with_duplicate_key")
+            if len(keys) == 0:
+                ctx.count("branch.reset_to_empty")
+        elif t[0] == "pause":
+            held, seen_held = True, {}
+        elif t[0] == "resume":
+            held = False
+        elif held and t[0] in ("p.set", "p.del") and len(t) > 1:
+            k = t[1] if t[0] == "p.del" else "/".join(t[1].split(";")[:2])
+            if k in seen_held:
+                # a second change of an input whose first event is still queued: the queued event is stale
+                ctx.count("branch.exact.stale_queued_event")
+                if t[0] == "p.del":
+                    ctx.count("branch.exact.input_vanished_before_its_event_was_processed")
+            seen_held[k] = True
+    if os.path.exists(trace_path):
+        for l in ctx.read_lines(trace_path):
+            t = l.split()
+            if t and t[0] in ("stream", "ustream", "pstream", "dstream", "xstream", "istream"):
+                for e in t[2:]:
+                    kind = e[:2]
+                    if kind in ("A~", "U~", "D~"):
+                        ctx.count("events.%s" % {"A~": "add", "U~": "update", "D~": "delete"}[kind])
+                    if e.startswith("D~~"):
+                        ctx.count("events.delete_with_zero_valued_old")
+                    if e.startswith("X~"):
+                        ctx.count("events.malformed_shape")
+
+
 def split_cases(ops):
     starts = [i for i, l in enumerate(ops) if l.startswith("case")]
     if not starts or starts[0] != 0:
@@ -260,6 +315,7 @@ def run_stream(ctx, stream, ncases):
         st["cases"] += nc
         st["ops"] += nl
         ctx.account(stream, ops, impl)
+        branch_counters(ctx, stream, ops, impl + ".trace")
         if f6_cases:
             st["known_f6_cases"] += len(f6_cases)
             case_lines, bad = f6_cases[0]
@@ -351,15 +407,19 @@ def run(ctx):
                 "without existing state, on the primary, the first-level and the chained collection; NewCollection, "
                 "NewManyCollection, NewSingleton with 0-2 fetches built from 9 filter atoms (key, keys, object name, selects - also "
                 "with a nil map -, selectsNonEmpty, label, namespace index, value index, generic; optional gating), an index "
-                "present from the start and a multi-key index created late. join/joinr/joinm/joinn/joinnr: JoinCollection "
-                "(checked, unchecked, over derived collections), JoinWithMergeCollection, NestedJoinWithMergeCollection with "
-                "overlapping keys, namespace and value indexes. misc: NewStaticCollection(initial values), NewStatic.Set, FetchOne, "
-                "index.Fetch, PartialFetch, DiscardResult, UnregisterHandler. idxc: index.AsCollection and a collection grouped by "
-                "it. mem: the memory config store (two kinds). exact/joinx: the runtime models step by step (Reset batches, held "
-                "queue). Observations = List/GetKey/Index.Lookup at quiescent points + every subscriber's stream; distinct = hash "
+                "present from the start and a multi-key index created late (named twice and unnamed), a fetch through a "
+                "multi-key index, output key = input key / one of several keys / a function of the input's value, Reset with "
+                "a key twice, NewManyFromNothing, FetchOrList without a context. join/joinr/joinm/joinn/joinnr: JoinCollection "
+                "(checked, unchecked, over derived collections, over a NewStatic singleton), JoinWithMergeCollection, "
+                "NestedJoinWithMergeCollection with overlapping keys, namespace and value indexes; on top of the join a "
+                "singleton that fetches it, a collection with the join as primary input and one over the singleton. misc: "
+                "NewStaticCollection(initial values), NewStatic.Set, FetchOne, index.Fetch, PartialFetch, DiscardResult, "
+                "UnregisterHandler. idxc: index.AsCollection, a collection grouped by it and one through FetchIndexObjects. "
+                "mem: the memory config store (two kinds, written before and after Run). exact/joinx: the runtime models step "
+                "by step (Reset batches, held queue, late index). Observations = List/GetKey/Index.Lookup at quiescent points + every subscriber's stream; distinct = hash "
                 "of (ops, observations); non-trivial = at least one op")
     ctx.assumptions = [
-        "the derived collection's inputs are krt static collections (informer-backed collections are not exercised)",
+        "the derived collection's inputs are krt static collections, joins, singletons or (stream inf) one informer on the fake client",
         "the transformation function is a pure function of its input and of what it fetches (krt's contract)",
         "distinct inputs never hold the same output key in the recorded mappings when a batch is applied (DisjointAtApply); "
         "histories that violate it without a barrier are the known finding F6 and are checked apart (stream krtf6)",
@@ -399,7 +459,7 @@ def run(ctx):
     # `no-failing-input-found`)
     run_stream(ctx, "exact", ctx.n(1500, 40000))
     run_stream(ctx, "joinx", ctx.n(600, 15000))
-    for stream in ("krt", "krtf6", "join", "joinr", "joinm", "joinn", "mem"):
+    for stream in ("krt", "krtf6", "join", "joinr", "joinm", "joinn", "joinnr", "misc", "idxc", "inf", "mem"):
         run_oracle(ctx, stream)
 
 
@@ -506,25 +566,36 @@ MANIFEST = {
                    "contents (monitorB_iff, sound and complete; late subscribers; per-key decomposition). (2) For an executable "
                    "model of krt's manyCollection bookkeeping under every interleaving of source changes and queue processing: at "
                    "quiescence contents = transformation of the current inputs, the stream is well formed for early and late "
-                   "subscribers (registration as two steps: needed atomicity proved by a witness, the lock that provides it is a "
-                   "regenerated source fact), dependency tracking is complete, Index.Lookup is exact for any extractor and any "
-                   "creation time - under the input-level discipline Disciplined (disciplined_runOK) and unconditionally for "
-                   "one-to-one collections; the statement without it is refuted (key_move_witness = finding F6). (3) For an "
-                   "executable model of the checked join's event path: correctness with any number of events in flight under the "
-                   "discipline of the join stream (join_disciplined_correct), late registration from processedState, and the "
-                   "witnesses of finding F10. (4) The contents clause is specContents / joinContents / mergeContents ..., recomputed "
-                   "in Lean for every observation of List/GetKey/Index.Lookup on real krt collections; both runtime models are "
-                   "compared with the real collections step by step (streams exact, joinx)."),
+                   "subscribers (registration as two steps: needed atomicity proved by a witness; that snapshot and Insert share "
+                   "one critical section of the collection lock is a regenerated source fact), dependency tracking is complete, "
+                   "Index.Lookup is exact for any extractor and any creation time - under the input-level discipline Disciplined "
+                   "(disciplined_runOK) and, without it, for KEY-PRESERVING one-to-one collections only (output key = input key: "
+                   "state_correct_key_preserving). The statement without the discipline is refuted for one-to-many collections "
+                   "(key_move_witness) and for one-to-one collections whose output key is not the input's "
+                   "(one_to_one_by_value_witness) = finding F6; moves in which the old parent releases the key first are accepted "
+                   "(old_parent_first_accepted). (3) For an executable model of the checked join's event path: correctness with "
+                   "any number of events in flight under the discipline of the join stream, from empty and from populated "
+                   "collections (join_disciplined_correct, join_populated_correct), late registration from processedState, and "
+                   "the witnesses of finding F10. (4) The contents clause is specContents / joinContents / mergeContents ..., "
+                   "recomputed in Lean for every observation of List/GetKey/Index.Lookup on real krt collections and evaluated a "
+                   "second time in Go (oracles on every stream but the two model streams); both runtime models and the index "
+                   "functions of late_index_correct are compared with the real collections step by step (streams exact, joinx)."),
     "level_note": ("Partial: the real goroutine scheduling of krt is observed (random histories on real collections, exact "
-                   "quiescence through a testing/synctest bubble), not proved; the runtime models process a batch atomically and "
-                   "have one delivered stream (per-handler queues are not modelled). Trusted: Lean kernel + {propext, "
-                   "Classical.choice, Quot.sound}; the Go harness and its interpreter of the shared Transform description; the "
-                   "barrier discipline bookkeeping (implemented twice, Go and Lean, compared); the go/ast fact extractor. Outside: "
-                   "informer-backed collections, RecomputeTrigger, object augmentation; the reverse-index optimisation of "
-                   "changedInputKeys and merge / nested merge joins have no Lean runtime model (specification + monitor only). "
-                   "Known findings F6 (manyCollection key move), F10 (join event conversion from live state), F13 (nested merge "
-                   "join with the outer collection changing while events are in flight) are classified apart; F11, F12, F13a "
-                   "fixed in /repo (02571e4, f69274a, 5f967bb)."),
+                   "quiescence through a testing/synctest bubble; cases that depend on the schedule are re-run under contention), "
+                   "not proved; the runtime models process a batch atomically and have one delivered stream. Anchors WITHOUT a "
+                   "Lean runtime model or theorem (specification + verified monitor on real executions + Go oracle only): "
+                   "processor.go (per-handler queues, pop/run, sync tracker - only the Insert/Distribute call sites are in the "
+                   "source tie), the reverse index indexedDependencies of changedInputKeys (the model has the full scan it "
+                   "pre-filters), mergejoin.go, nestedjoinmerge.go, singleton.go (NewStatic, NewSingleton, NewManyFromNothing), "
+                   "informer.go, index.AsCollection, files.go. Trusted: Lean kernel + {propext, Classical.choice, Quot.sound}; "
+                   "the Go harness and its interpreter of the shared Transform description; the barrier discipline bookkeeping "
+                   "(implemented twice, Go and Lean, compared); the go/ast fact extractor. Outside: RecomputeTrigger; "
+                   "WithObjectAugmentation beyond an identity function (observed: with a type that gets its labels only from "
+                   "the augmentation, the first change of the fetched collection panics in objectChanged - unused in istio). "
+                   "Known findings F6 (manyCollection key move, new parent applied first), F10 (join event conversion from live "
+                   "state), F13 (nested merge join with the outer collection changing while events are in flight) are "
+                   "classified apart; F11, F12, F13a, F14 (Reset with a duplicate key), F15 (static singleton GetKey ignores "
+                   "the key) fixed in /repo (02571e4, f69274a, 5f967bb, 52e0780, 202ccd5)."),
     "technique": "Lean 4 verified stream monitor + abstract runtime models + specification recomputed on observations of real krt collections (T-mon/T-diff/T-gen)",
     "design_ref": "DESIGN.md section 5 C16",
 }
